@@ -42,6 +42,7 @@ type FuncSpec struct {
 	ParamNames []string
 	ResNames   []string
 	Extern     bool
+	GhostSets  [][2]*Expr // on return: ghost location := value
 	File       string
 	Line       int
 	Used       bool
@@ -92,7 +93,7 @@ func NewSpecDB() *SpecDB {
 
 var clauseKeywords = map[string]bool{
 	"property": true, "pure": true, "axiom": true, "ghost": true, "global": true, "func": true, "extern": true,
-	"fieldspec": true, "requires": true, "ensures": true, "modifies": true, "loop": true, "canary": true, "flag": true,
+	"fieldspec": true, "ghostset": true, "requires": true, "ensures": true, "modifies": true, "loop": true, "canary": true, "flag": true,
 	"inline": true, "trusted": true, "assume": true,
 }
 
@@ -400,6 +401,23 @@ func (db *SpecDB) LoadFile(file string, defaultPkg string) error {
 			case "canary":
 				cur.Canaries = append(cur.Canaries, c)
 			}
+		case "ghostset":
+			if cur == nil {
+				return errf(rc, "ghostset outside a func")
+			}
+			i := strings.Index(rest, ":=")
+			if i < 0 {
+				return errf(rc, "ghostset target := value")
+			}
+			te, err := ParseExpr(rest[:i])
+			if err != nil {
+				return errf(rc, "%v", err)
+			}
+			ve, err := ParseExpr(rest[i+2:])
+			if err != nil {
+				return errf(rc, "%v", err)
+			}
+			cur.GhostSets = append(cur.GhostSets, [2]*Expr{te, ve})
 		case "modifies":
 			if cur == nil {
 				return errf(rc, "modifies outside a func")
